@@ -49,6 +49,7 @@ FieldExpect(ev) ==
        [] ev.fn = "square" -> BN!ModMul(a, a, m)
        [] ev.fn = "opp" -> BN!ModSub(<<>>, a, m)
        [] ev.fn = "invert" -> BN!ModInv(a, m)
+       [] ev.fn = "divstepinvert" -> BN!ModInv(a, m)
        [] ev.fn = "set" -> BN!Norm(a)
        [] ev.fn = "select" -> IF ev.cond = 1 THEN BN!Norm(a) ELSE BN!Norm(b)
        [] ev.fn = "one" -> <<1>>
@@ -56,7 +57,7 @@ FieldExpect(ev) ==
 Expect(s, ev) ==
   CASE ev.op = "fiat.op" ->
          LET exp == FieldExpect(ev)
-             okInv == ev.fn = "invert" =>      \* the defining property, checked independently of ModInv
+             okInv == ev.fn \in {"invert", "divstepinvert"} =>      \* the defining property, checked independently of ModInv
                         (IF BN!IsZero(ev.a) THEN BN!IsZero(ev.out)
                          ELSE BN!ModMul(ev.a, ev.out, Md(ev)) = <<1>>)
              \* the internal representation is the canonical Montgomery form x * 2^256 mod m
